@@ -286,6 +286,11 @@ func (m *Model) genSel(t *rapid.T, typeName string, depth int, under bool) []*No
 				}
 				keyCounter++
 				nd.Key = fmt.Sprintf("k%d_%s", keyCounter, f.Name)
+				if len(args) == 0 && rapid.IntRange(0, 2).Draw(t, "plainkey") == 0 {
+					// no alias: the same response key then turns up in many selection sets of the
+					// query (and merges with itself where two of them meet)
+					nd.Key = f.Name
+				}
 				named := f.Type.named()
 				isList := strings.Contains(refString(f.Type), "[")
 				if k := m.Types[named.Name].Kind; k == "OBJECT" || k == "UNION" {
@@ -717,12 +722,36 @@ func wellformed(b *world.Bound, model *Model, root []*Node, q string) (confStats
 		}
 		return st, "nonconforming", fmt.Errorf("response does not conform to the advertised schema: %v\nresponse: %s", err, jv.CanonBytes(raw))
 	}
+	// the same query as a live query runs it: inside a reactive rerunner with batching, where
+	// results of Expensive fields go through the reactive cache
+	res2, err := b.Run(context.Background(), q, map[string]interface{}{}, graphql.NewImmediateGoroutineScheduler(), true)
+	if err != nil {
+		if strings.Contains(q, "bnn_") {
+			return st, "", nil
+		}
+		return st, "accepted-but-fails", fmt.Errorf("validation accepted the query but its execution inside a rerunner failed: %v", err)
+	}
+	raw2, _ := json.Marshal(res2)
+	dec2 := json.NewDecoder(strings.NewReader(string(raw2)))
+	dec2.UseNumber()
+	var tree2 interface{}
+	dec2.Decode(&tree2)
+	var st2 confStats
+	if err := model.conform(tree2, qt, root, "", &st2, false); err != nil {
+		if strings.HasPrefix(err.Error(), "harness:") {
+			return st, "harness", err
+		}
+		return st, "nonconforming", fmt.Errorf("response of the execution inside a rerunner does not conform to the advertised schema: %v\nresponse: %s", err, jv.CanonBytes(raw2))
+	}
 	return st, "", nil
 }
 
 func TestAdvertised(t *testing.T) {
 	rapid.Check(t, func(t *rapid.T) {
 		s := world.GenSpec(t)
+		// one pointer per pool object: the same source then shows up at several places of a
+		// response, which is what the reactive cache of Expensive fields keys on
+		s.Intern = rapid.Bool().Draw(t, "intern")
 		modes := genModes(t, s)
 		b, err := world.BindWith(s, modes, extra)
 		if err != nil {
